@@ -169,7 +169,7 @@ def check(prop, tier, seed):
         pass
     # observational part
     n = common.tier_n(tier, 1500, 20000)
-    citems = common.choose_items(prop, tier, seed, n, mode_fraction=0.05)
+    citems = common.choose_items(prop, tier, seed, n, mode_fraction=0.05, prior_fraction=0.15)
     pairs = common.run_campaign(rep, citems)
     counters, opts_seen = common.collect(rep, prop, pairs, lambda o: o["outcome"] == "ok" and o["stats"].get("steps", 0) >= 1)
     n_obs = len(rep.distinct)
